@@ -36,6 +36,7 @@ pub struct Env {
     pub fired: AtomicU64,
     pub calls: [AtomicU64; 3],
     pub last_metric_state: AtomicU64,
+    pub group_hook: AtomicBool,
 }
 
 #[derive(Clone, Copy, Debug, PartialEq)]
@@ -58,6 +59,7 @@ impl Env {
             fired: AtomicU64::new(0),
             calls: [AtomicU64::new(0), AtomicU64::new(0), AtomicU64::new(0)],
             last_metric_state: AtomicU64::new(0),
+            group_hook: AtomicBool::new(false),
         })
     }
     /// arm "fail the n-th callback invocation from now" (n counted from 0)
@@ -352,7 +354,7 @@ impl ObservationMetric<SimAttrs, SimObs> for SimMetric {
         &self,
         unfiltered: Vec<ObservationMetricOk<SimObs>>,
     ) -> Vec<ObservationMetricOk<SimObs>> {
-        unfiltered
+        let mut v: Vec<ObservationMetricOk<SimObs>> = unfiltered
             .into_iter()
             .filter(|r| match r.feature_distance {
                 Some(code) => {
@@ -361,7 +363,20 @@ impl ObservationMetric<SimAttrs, SimObs> for SimMetric {
                 }
                 None => true,
             })
-            .collect()
+            .collect();
+        if self.env.group_hook.load(SeqCst) && v.len() >= 2 {
+            // group-dependent hook (cross-shard differential only): the element with the greatest
+            // (code, metric) of the group handed to the hook is dropped - whatever a "group" is for
+            // the implementation, the overall result must not depend on the shard count
+            let key = |r: &ObservationMetricOk<SimObs>| {
+                (r.feature_distance.map(|x| x.to_bits()).unwrap_or(0), r.attribute_metric.map(|x| x.to_bits()).unwrap_or(0), r.from, r.to)
+            };
+            let mx = v.iter().map(key).max().unwrap();
+            if let Some(i) = v.iter().position(|r| key(r) == mx) {
+                v.remove(i);
+            }
+        }
+        v
     }
 }
 
